@@ -1051,8 +1051,19 @@ def rule_slicesum(ctx):
     by the exponent-aware adder, stacked at a common exponent with the factor `10 ** (own - largest)`."""
     from .c06 import rule_combine as src
 
-    return C.reuse_rule(ctx, src, "C06-COMBINE", "C02-SLICESUM",
-                        "per-slice results of a sliced tree are recombined exactly", lambda i: True, 2)
+    r = C.reuse_rule(ctx, src, "C06-COMBINE", "C02-SLICESUM",
+                     "per-slice results of a sliced tree are recombined exactly", lambda i: True, 2)
+    from .c06 import rule_radix, rule_stack
+    for fn, old_id in ((rule_radix, "C06-RADIX"), (rule_stack, "C06-STACK")):
+        for i in fn(ctx).instances:
+            c = i.construct.replace(old_id, "C02-SLICESUM")
+            if i.verdict == "violation":
+                r.violation(c, i.loc, i.reason, **i.detail)
+            elif i.verdict == "exempt":
+                r.exempt(c, i.loc, i.reason)
+            else:
+                r.ok(c, i.loc, i.reason)
+    return r
 
 
 # ---- NODE ------------------------------------------------------------------
